@@ -302,11 +302,15 @@ def harness(eng, fam, P):
                 name = [5, 0, False, b'', [], {}, 0.0][eng.choose('badname', 7)]
                 what = '%s=%r' % (slot, name)
             elif slot == 'func':
-                fn = 'not callable'
+                # not callable (falsy values included)
+                fn = ['not callable', None, 0, ''][eng.choose('badfunc', 4)]
+                what = 'func=%r' % (fn,)
             elif slot.endswith('cache_filename'):
                 cache = 3.5
             elif slot == 'versions':
-                versions = [('f', 1)]
+                # not a dict (empty containers included: they must not be mistaken for "no versions")
+                versions = [[('f', 1)], [], (), '', set(), 0, None][eng.choose('badversions', 7)]
+                what = 'versions=%r' % (versions,)
             elif slot == 'versions-nonjson':
                 versions = {'f': object()}
         elif fam == 'name':
